@@ -39,6 +39,9 @@ def check(ctx):
   r4_sites(ctx)
   r5(ctx, cls)
   r6(ctx, cls)
+  from . import c01 as _c01p
+  ctx.rule('C01.R3', 'shared with C01: frames are pushed on a call stack only on the request path (the queue recognises a waiter that timed out by its drained stack)')
+  _c01p.push_discipline(ctx, 'C01.R3')
   r7(ctx, cls)
   pool_request_paths(ctx)
   config(ctx)
